@@ -264,28 +264,22 @@ def run(ctx, report: Report) -> None:
 
     # ---- R4 ------------------------------------------------------------------------------------------
     r4 = report.rule('C07-R4', 'custom selector definitions are compiled once per parser (memoised)', floor=1)
-    cmod, cfn = src.func('css_parser.CSSParser.parse_pseudo_class_custom')
-    rec = [c for c in ast.walk(cfn) if isinstance(c, ast.Call) and src.resolve_class_ref(cmod, c.func) == 'css_parser.CSSParser']
-    stores = [st for st in ast.walk(cfn) if isinstance(st, ast.Assign) and any(
-        isinstance(t, ast.Subscript) and unparse(t.value) == 'self.custom' for t in st.targets)]
-    r4.instance({'recursive_compiles': len(rec), 'write_back_stores': [unparse(s) for s in stores]}, key='custom-memo')
-    if not rec:
-        raise AnalysisError('parse_pseudo_class_custom: recursive CSSParser(...) call not found (anchor vanished)')
-    guarded = any(isinstance(n, ast.If) and 'isinstance' in unparse(n.test) and any(r in ast.walk(n) for r in rec)
-                  for n in ast.walk(cfn))
-    for c in rec:
-        cust = [kw.value for kw in c.keywords if kw.arg == 'custom'] or c.args[1:2]
-        shared = bool(cust) and unparse(cust[0]) == 'self.custom'
-        r4.instance({'recursive_call': unparse(c)[:90], 'shares_memo_table': shared}, key='custom-share')
-        r4.obligation(shared)
-        if not shared:
-            r4.violation('css_parser.CSSParser.parse_pseudo_class_custom shared-table', cmod.where(c),
-                         'the nested parser does not receive self.custom itself: definitions compiled deeper down are '
-                         'thrown away, so layered aliases are recompiled once per reference (exponential in the depth)')
-    if not stores or not guarded:
-        r4.violation('css_parser.CSSParser.parse_pseudo_class_custom memo', cmod.where(cfn),
-                     'the compiled custom selector is not written back to self.custom (or the isinstance guard is gone): '
-                     'every reference recompiles the definition, which is exponential for chained aliases')
+    # layered custom aliases are compiled once each, however often they are referenced: the work of compiling `:--a0` under maps
+    # of 4 / 8 / 16 layers (each layer referenced twice) is measured by interpretation and must grow polynomially - the last row
+    # of the scaling table (R5); here the same measurement for a chain and a diamond
+    from .e2etab import _work
+    for shape, make in (('chain referenced three times per layer', lambda n: dict({f':--a{i}': f':--a{i + 1}, x :--a{i + 1}, :not(:--a{i + 1})' for i in range(n)}, **{f':--a{n}': 'p'})),
+                        ('diamonds', lambda n: dict({f':--a{i}': f':--b{i}, :--c{i}' for i in range(n)}, **{f':--b{i}': f':--a{i + 1}' for i in range(n)},
+                                                    **{f':--c{i}': f':--a{i + 1}' for i in range(n)}, **{f':--a{n}': 'p'}))):
+        work = [_work(ctx, ':--a0', custom=make(n)) for n in (3, 6, 12)]
+        ratios = [None if (x is None or y is None or x == 0) else round(y / x, 2) for x, y in zip(work, work[1:])]
+        ok = all(w is not None for w in work) and all(r_ is not None and r_ <= 12 for r_ in ratios)
+        r4.instance({'custom_map_shape': shape, 'layers': [3, 6, 12], 'work': work, 'growth_per_doubling': ratios, 'polynomial': ok}, key=f'custom-memo|{shape}')
+        r4.obligation(ok)
+        if not ok:
+            r4.violation(f'css_parser custom selector memo ({shape})', 'soupsieve/css_parser.py (parse_pseudo_class_custom)',
+                         f'compiling `:--a0` under a custom map of 3 / 6 / 12 layers ({shape}) takes {work} steps (None = budget exhausted), '
+                         f'growth per doubling {ratios}: a definition is recompiled for every reference, which is exponential in the depth')
 
     from .sem import freeze_cost_table
     freeze_cost_table(ctx, r4)
